@@ -32,6 +32,14 @@ SPECS = {
         search=False,
         explanation="pairs of terms rendered through every list/string construction path; =/2 both ways, unify_with_occurs_check/2, ==/2 after success, \\+ =/2, head unification; the model's unifier evaluated on the abstract pair; the property's algebraic laws (symmetry, identity after success, no bindings after failure, representation independence, agreement of the two unifiers) evaluated on the implementation for every pair",
     ),
+    "C08": dict(
+        level="proof", props_deps=["Proofs/Order.v"], model_deps=["Model/TermCheck.v"],
+        trusted=COMMON_TRUSTED + ["hand-written Model/Order.v (Compare methods over abstract terms), tied by the correspondence run",
+                                  "sort.Slice / sort.SliceStable are specified by what they return (sorted, stable): the model sorts by insertion"],
+        assumptions=["laws relating several calls are asserted on ground terms only (the order of two distinct unbound variables is implementation dependent)"],
+        search=False,
+        explanation="compare/3 on pairs and triples rendered through all construction paths, ==/2, the order operators of bootstrap.pl, sort/2 with duplicates, keysort/2 stability on long lists; the model's order and sort evaluated on the abstract terms",
+    ),
     "C03": dict(
         level="proof", props_deps=["Proofs/Promise.v", "Proofs/Trampoline.v"], model_deps=ENGINE_MODEL_DEPS, trusted=ENGINE_TRUSTED,
         assumptions=["cut placements outside the property's quantifier (a cut nested in a non-top-level disjunction, in a then/else branch or under a left-nested conjunction) are not generated"],
